@@ -35,7 +35,11 @@ try:
     # repository tests on the patched tree vs unchanged tree (same subset)
     tests = "tests/test_samples.py tests/test_utils.py tests/test_transforms.py tests/test_history.py tests/test_plot.py tests/test_flows tests/integration_tests"
     res = {}
-    for label, root in (("patched", d),):
+    prev_meta = os.path.join(VERIF, "seeded", name, "meta.json")
+    if os.environ.get("SKIP_TESTS") and os.path.exists(prev_meta):
+        # re-validation against newer checks: the repository's tests were run on this very patch when it was first kept
+        res["patched"] = json.load(open(prev_meta)).get("tests_patched", "")
+    for label, root in (("patched", d),) if "patched" not in res else ():
         rr = subprocess.run(f"cd {root} && PYTHONPATH={root}/src /venv/bin/python -m pytest {tests} -q -p no:cacheprovider --no-cov -n 4 --timeout=1800 2>&1 | tail -1", shell=True, capture_output=True, text=True, env=env)
         res[label] = rr.stdout.strip()
     meta["tests_patched"] = res["patched"]
